@@ -139,6 +139,47 @@ def applySetters (info : Info) (s : Side) : List (Cat × List Name) → Side
   | [] => s
   | (c, x) :: rest => applySetters info (setPref info s c x).1 rest
 
+def Side.dis (s : Side) : Cat → List Name
+  | .kex => s.disKex | .keys => s.disKeys | .ciphers => s.disCiphers | .macs => s.disMacs
+  | .compression => s.disComp
+
+def Side.withDis (s : Side) : Cat → List Name → Side
+  | .kex, x => { s with disKex := x }
+  | .keys, x => { s with disKeys := x }
+  | .ciphers, x => { s with disCiphers := x }
+  | .macs, x => { s with disMacs := x }
+  | .compression, x => { s with disComp := x }
+
+/-- `Transport._filter_algorithm(type_)` / the `preferred_*` properties as a function of the transport's
+    state *now*: nothing is remembered between calls. -/
+def Side.preferred (s : Side) : Cat → List Name
+  | .kex => s.preferredKex | .keys => s.preferredKeys | .ciphers => s.preferredCiphers
+  | .macs => s.preferredMacs | .compression => s.preferredComp
+
+/-- what an application can do to one transport object between (re)negotiations -/
+inductive Op
+  /-- `get_security_options().<c> = x` (may raise `ValueError`, caught by the caller) -/
+  | setPref (c : Cat) (x : List Name)
+  /-- `disabled_algorithms[c]` becomes `x`: re-assignment of the dict, in-place mutation, or mutation of
+      the dict object that was passed to the constructor (kept by reference) -/
+  | setDisabled (c : Cat) (x : List Name)
+  /-- reading `t.preferred_<c>` / `get_security_options().<c>`: no effect on the transport -/
+  | read (c : Cat)
+  deriving Repr, DecidableEq
+
+def applyOp (info : Info) (s : Side) : Op → Side
+  | .setPref c x => (setPref info s c x).1
+  | .setDisabled c x => s.withDis c x
+  | .read _ => s
+
+def applyOps (info : Info) (s : Side) : List Op → Side
+  | [] => s
+  | op :: rest => applyOps info (applyOp info s op) rest
+
+def Op.isRead : Op → Bool
+  | .read _ => true
+  | _ => false
+
 /-! ## KEXINIT -/
 
 /-- the eight algorithm name-lists of a KEXINIT, in wire order -/
